@@ -17,7 +17,7 @@ def run(tier):
     vf.run_harness(binpath, ["mesh", "gen", "--seed", vf.seed(), "--tier", tier], stdout_path=cases)
     vf.exec_and_validate(chk, binpath, "mesh", "TV_Mesh", cases, jvms=8, what="solid")
     chk.cov["distinct_nontrivial"] = chk.cov["traces_validated_against_impl"]
-    chk.cov["rule"] = ("every sector count 3..8 (thorough: 12) x segment count 1..5 (8) of sphere, torus, cylinder, cone "
+    chk.cov["rule"] = ("every sector count 3..8 (thorough: 16) x segment count 1..5 (10) of sphere, torus, cylinder, cone "
                        "(apex or base radius zero included), capsule (1-3 cap segments), capped and uncapped, three radii; "
                        "lathe cylinders over four partial azimuth ranges; the five Platonic solids and three boxes; TLC "
                        "judges indices, watertightness and Euler characteristic on faces + position classes, and the "
